@@ -37,7 +37,7 @@ def main():
         try:
             import random
             c09 = importlib.import_module('props.c09')
-            for pid_, ops in c09.OPS_BY_PROPERTY.items():
+            for pid_, ops in list(c09.OPS_BY_PROPERTY.items()) + list(runner.EXTRA_SLICE_OPS.items()):
                 sp, _ = c09.slice_for(ops, 'quick', random.Random(seed), refused_only=(pid_ == 'C15'))
                 specs += list(sp)
         except Exception as e:
